@@ -97,14 +97,16 @@ pub mod w16 {
       relation r0(i64, i64);
       relation r1(i64);
       relation r2(i64, i64, i64);
-      lattice r3(i64);
-      lattice r4(i64, i64);
-      r3((*v1)) <-- r2(v0, 1, v1) if ((*v1) < 4);
-      r3(std::cmp::min(((*v0) + 1), 6)) <-- r3(v0), r1(v1);
-      r4(3, (*v1)) <-- r2(v0, 3, v1);
-      r4(2, v1) <-- r4(v0, v1), r2(v2, v0, v3) if ((*v0) < 2);
-      r4(v0, (*v2)) <-- r4(v0, v1), r4(v2, v3);
-      r3((*v0)) <-- r4(v0, v1);
+      lattice r3(Set<i64>);
+      lattice r4(i64, Option<i64>);
+      r3(Set::singleton((*v1))) <-- r2(v0, 1, v1) if ((*v1) < 4);
+      r3(v0) <-- r3(v0), r1(v1);
+      r4(v0, Some((*v0))) <-- r1(v0);
+      r4(v0, Some((*v2))) <-- r4(v0, v1), r0(v2, v3);
+      r0(v1, v3) <-- r0(v0, v1) if ((*v0) < 3), r0(v2, v3) if ((*v2) < 3);
+      r4(1, None) <-- r4(v0, v1), r4(v2, v3);
+      r2(((*v0) + 1), v0, v0) <-- r1(v0), r3(v1), if ((*v0) < 6);
+      r4(1, Some(1)) <-- r3(v0);
    }
    pub struct Inst { p: Prog, pool: Option<ascent::rayon::ThreadPool> }
    pub fn make(pool: Option<usize>) -> Box<dyn Driver> {
@@ -118,8 +120,8 @@ pub mod w16 {
          0 => { let v: Vec<(i64,i64,)> = parse_rows(rows)?; if !append { self.p.r0 = Default::default(); } for x in v { self.p.r0.push(x); } },
          1 => { let v: Vec<(i64,)> = parse_rows(rows)?; if !append { self.p.r1 = Default::default(); } for x in v { self.p.r1.push(x); } },
          2 => { let v: Vec<(i64,i64,i64,)> = parse_rows(rows)?; if !append { self.p.r2 = Default::default(); } for x in v { self.p.r2.push(x); } },
-         3 => { let v: Vec<(i64,)> = parse_rows(rows)?; if !append { self.p.r3 = Default::default(); } for x in v { self.p.r3.push(std::sync::RwLock::new(x)); } },
-         4 => { let v: Vec<(i64,i64,)> = parse_rows(rows)?; if !append { self.p.r4 = Default::default(); } for x in v { self.p.r4.push(std::sync::RwLock::new(x)); } },
+         3 => { let v: Vec<(Set<i64>,)> = parse_rows(rows)?; if !append { self.p.r3 = Default::default(); } for x in v { self.p.r3.push(std::sync::RwLock::new(x)); } },
+         4 => { let v: Vec<(i64,Option<i64>,)> = parse_rows(rows)?; if !append { self.p.r4 = Default::default(); } for x in v { self.p.r4.push(std::sync::RwLock::new(x)); } },
             _ => return None,
          }
          Some(())
